@@ -495,7 +495,7 @@ func runC04(env *Env, data map[string]any) *Outcome {
 			break
 		}
 		want, wantOK, why := abstractStep(aRecordsOf(before), c)
-		res := runCommand(env, cur, c.Cfg, c.Now, c.Cmd, 1)
+		res := runCommand(env, cur, c.Cfg, c.Now, c.Cmd, cpusFor(cur))
 		model := modelCommand(env, cur, c.Cfg, c.Now, c.Cmd)
 		o.Evals++
 		stepIn := map[string]any{"text": hx(cur), "steps": []any{s}}
